@@ -27,6 +27,12 @@ def handle (op : String) (args : List String) : Option String :=
     else if threads == "0" then some "fails determinism:threads"
     else if sameText != "1" then some "fails determinism:D_diag_hint_order"
     else some "holds"
+  | "o.c14.fn", [fname, _src, _eventA, _eventB, "|", same, threads] =>
+    -- a compiled program keeps no state from one event to the next (panics are C04's)
+    if same == "panic" then some "holds"
+    else if same != "1" then some ("fails determinism:state:" ++ fname)
+    else if threads != "1" then some ("fails determinism:threads:" ++ fname)
+    else some "holds"
   | _, _ => none
 
 end Driver.Sweep
